@@ -35,7 +35,7 @@ na = [{'property_id': p['id'], 'reason': 'check not built yet (framework under c
       for p in props if p['id'] not in CLAIMS]
 m = {
  'version': 1,
- 'setup_cmd': 'cd harness && cargo build --offline && cd .. && for m in spec/*.tla; do tla-sany $m > /dev/null || exit 1; done',
+ 'setup_cmd': 'cd harness && cargo build --offline && cd ../spec && for m in *.tla; do tla-sany $m > /dev/null || exit 1; done',
  'hooks': {'guard': 'a10_verif',
            'enable': 'RUSTFLAGS=--cfg a10_verif, set in harness/.cargo/config.toml (the harness has a path dependency on /repo)',
            'baseline_off_cmd': 'cd /repo && cargo test --workspace --no-fail-fast --offline',
